@@ -48,6 +48,9 @@ type advCase struct {
 	// WriteErrAfter (when > 0) replaces WriteErrN: the first write of generation
 	// 1 that begins at or after this instant fails.
 	WriteErrAfter time.Duration
+	// WriteErrAll: every write from WriteErrAfter on fails (a persistent fault),
+	// not just the first one.
+	WriteErrAll bool
 	Seed          time.Duration
 	Tail          time.Duration // observation time after run_return
 	// StopHook places the stop request inside an operation: "fwd" = inside the
@@ -141,7 +144,7 @@ func advRun(t *testing.T, c *advCase) *advResult {
 				var fired atomic.Bool
 				cn.WriteErr = func(n int, _ netip.Addr) error {
 					if c.WriteErrAfter > 0 {
-						if h.tr.Now() >= c.WriteErrAfter && fired.CompareAndSwap(false, true) {
+						if h.tr.Now() >= c.WriteErrAfter && (fired.CompareAndSwap(false, true) || c.WriteErrAll) {
 							return vErrOf(c.WriteErrKind)
 						}
 						return nil
